@@ -116,7 +116,9 @@ func (o *packetScanCmdOpts) getScanRange(dstSubnet *net.IPNet) (*scan.Range, err
 	if o.srcIP != nil {
 		srcIP = o.srcIP
 	}
-	if srcIP == nil {
+	// probes are IPv4 only: an interface whose first address is IPv6
+	// (or an IPv6 --srcip) gives no usable source address
+	if srcIP = srcIP.To4(); srcIP == nil {
 		return nil, errSrcIP
 	}
 
@@ -128,7 +130,7 @@ func (o *packetScanCmdOpts) getScanRange(dstSubnet *net.IPNet) (*scan.Range, err
 	return &scan.Range{
 		Interface: iface,
 		DstSubnet: dstSubnet,
-		SrcIP:     srcIP.To4(),
+		SrcIP:     srcIP,
 		SrcMAC:    srcMAC}, nil
 }
 
